@@ -39,6 +39,8 @@ MUTANTS = [
     ("c18_rule_before_scenario", ["C18"], B, "            parse_tags(&scenario.tags)\n                .or_else(|| rule.and_then(|r| parse_tags(&r.tags)))", "            rule.and_then(|r| parse_tags(&r.tags))\n                .or_else(|| parse_tags(&scenario.tags))"),
     ("c18_builder_over_cli", ["C18"], B, "        cli.retry = cli.retry.or(retries);", "        cli.retry = retries.or(cli.retry);"),
     ("c18_ff_and", ["C18"], B, "        let fail_fast = cli.fail_fast || fail_fast;", "        let fail_fast = cli.fail_fast && fail_fast;"),
+    ("c20_wrong_scenario", ["C20"], "/repo/src/tracing.rs", "            id.and_then(|k| self.scenarios.get(&k))\n", "            id.and_then(|_| self.scenarios.values().next())\n"),
+    ("c20_no_span_wait_in_step", ["C20"], B, "        let result = run.then_yield().await;\n\n        #[cfg(feature = \"tracing\")]\n        if let Some((waiter, id)) = waiter.zip(span_id) {\n            waiter.wait_for_span_close(id).then_yield().await;\n        }", "        let result = run.then_yield().await;\n\n        #[cfg(feature = \"tracing\")]\n        let _ = (waiter, span_id);"),
     ("c04_idle_no_yield", ["C04"], B, "                yield_now().await;\n", ""),
 ]
 
